@@ -231,8 +231,19 @@ func init() {
 		"(*sync.WaitGroup).Add":   noop,
 		"(*sync.WaitGroup).Done":  noop,
 		"(*sync.WaitGroup).Wait":  noop,
-		"(*sync.Cond).Signal":     noop,
-		"(*sync.Cond).Broadcast":  noop,
+		"(*sync.Cond).Signal": func(fr *frame, a []value) value {
+			if fr.in.path != nil {
+				fr.in.path.condSignals++
+			}
+			return nil
+		},
+		"(*sync.Cond).Broadcast": func(fr *frame, a []value) value {
+			if fr.in.path != nil {
+				fr.in.path.condSignals++
+				fr.in.path.condBroadcasts++
+			}
+			return nil
+		},
 		"(*sync.Cond).Wait":       condWait,
 		"sync.NewCond": func(fr *frame, a []value) value {
 			// struct layout: noCopy, L, notify, checker; only L matters
